@@ -13,7 +13,11 @@ snippet replaced by just its completed definitions, and RESET replaced by a newl
 interpreter (SpecScripts.run_repl_case) on a sample when it is available.  Debug AND release builds.
 (d) clean-up at SCALE (round 8): ReuseScale.v (every fiber of a caller chain of ANY length is over after a failed run; a walk bounded
 by a constant is refuted beyond the bound) + scale_check: waiting fibers / frames / open upvalues / handlers / loading modules /
-definitions before RESET at sizes 2, 63..66, 130, 250 - against the same run completing normally and against the smallest size."""
+definitions before RESET at sizes 2, 63..66, 130, 250 - against the same run completing normally and against the smallest size.
+(e) import x escaping object x failed run x retry (round 9): ReuseScale.v part 2 (the retry of a failed import builds a NEW module
+object, so no global of an existing object changes: closures that escaped from the failed body keep what it completed; emptying or
+reusing the registered object is refuted) + escape_check: 5 object kinds x 5 escape routes x 4 ways to fail x 4 kinds of retry x both
+orders x direct / through a wrapper module, oracle by construction (the k-th use prints the first attempt's values)."""
 import os
 
 import yvlib
@@ -1295,6 +1299,125 @@ def scale_check(ctx, binary, profile, mods_items, only=None):
     return len(keys), nfail
 
 
+# ---- import x escaping object x failed run x retry (round 9) ----
+# A module body defines globals, lets an object that USES them escape (closure / named fn / bound method / instance / class; stored
+# into another module's global or vec, handed to a callback of main, thrown as the error value, yielded from a fiber) and then fails
+# uncaught (throw / built-in error / nested failing import / circular import).  Later snippets re-import the module (the retry fails
+# earlier / at the same place / later / succeeds; directly or through a wrapper module) and use the escaped object, in both orders.
+# Oracle by construction: every value the object prints names the ATTEMPT that created it and a counter kept in that attempt's
+# globals: the k-th use prints "hello from em #1/<100 + k>" whatever happened in between.  The retry's own outcome is not judged.
+ESC_STATE = "var loads = 0; var mode = 0; var hook = nil; var box = []; var cb = nil;\n"
+ESC_BAD = "throw \"ebad: broken\";\n"
+ESC_WRAP = "import \"em\" as m;\nvar wtag = \"wrap complete\";\n"
+ESC_KINDS = [("closure", "lam", "print(%s());"), ("named_fn", "named", "print(%s());"), ("bound_method", "inst.m", "print(%s());"),
+             ("instance", "inst", "print(%s.m());"), ("class", "K", "print(%s.new().m());")]
+ESC_WAYS = [("throw", "throw \"em: broken\";"), ("builtin_error", "nil.foo;"), ("nested_failing_import", "import \"ebad\" as eb;"),
+            ("circular_import", "import \"em\" as me;")]
+ESC_ROUTES = [("other_module_global", "if st.hook == nil { st.hook = obj; }", "st.hook"), ("other_module_vec", "st.box.push(obj);", "st.box[0]"),
+              ("callback_into_main", "st.cb(obj);", "saved"), ("thrown", None, "saved"), ("yielded", "Fiber.yield(obj);", "saved")]
+ESC_MODES = [(0, "fails_same_place"), (1, "fails_earlier"), (2, "fails_later"), (3, "succeeds")]
+ESC_PLACES = [("top", "%s"), ("nested_call", "(|| { %s })();"), ("fiber", "Fiber.new(|| { %s }).call();"),
+              ("try_finally", "try { %s } finally { print(\"fin\"); }")]
+ESC_SETUP = "import \"est\" as st; var saved = nil; st.cb = |x| { if saved == nil { saved = x; } };"
+
+
+def esc_module(kind_expr, route_stmt, way_stmt):
+    fail = way_stmt if route_stmt is not None else "throw obj;"
+    return ("import \"est\" as st;\nst.loads = st.loads + 1;\nvar attempt = st.loads;\n"
+            "if attempt > 1 && st.mode == 1 { throw \"em: early\"; }\n"
+            "var greeting = \"hello from em #\" + String.from(attempt);\nvar count = 100 * attempt;\n"
+            "fn bump() { count = count + 1; return count; }\n"
+            "#[constructor(new)] class K { fn m(self) { return greeting + \"/\" + String.from(bump()); } }\n"
+            "fn named() { return greeting + \"/\" + String.from(bump()); }\nvar inst = K.new();\n"
+            "var lam = || { return greeting + \"/\" + String.from(bump()); };\n"
+            "var obj = %s;\n%s\n"
+            "if attempt > 1 && st.mode == 2 { var late = 5; throw \"em: late\"; }\n"
+            "if !(attempt > 1 && st.mode == 3) { %s }\n"
+            "var tag = \"em complete #\" + String.from(attempt);\n" % (kind_expr, route_stmt or "", fail))
+
+
+def esc_cases(quick, rot, profile):
+    res = []
+    i = 0
+    for rn, rstmt, acc in ESC_ROUTES:
+        vias = ["direct"] if rn in ("thrown", "yielded") else ["direct", "wrapper"]
+        ways = ESC_WAYS if rstmt is not None else [("throws_the_object", None)]
+        for via in vias:
+            for wn, wstmt in ways:
+                for kn, kexpr, puse in ESC_KINDS:
+                    for mode, mn in ESC_MODES:
+                        for order in ("use_first", "retry_first"):
+                            i += 1
+                            # the debug build is ~50x slower: a slice rotating with the seed (every route/way/kind/mode is hit)
+                            if profile == "debug" and (i + rot) % (11 if quick else 3) != 0:
+                                continue
+                            imp = "ewrap" if via == "wrapper" else "em"
+                            place = ""
+                            if rn == "thrown":
+                                fail = "try { import \"em\" as m; } catch e { if saved == nil { saved = e; } } throw \"main: gives up\";"
+                                retry = "import \"em\" as m2; print(m2.tag);"
+                            elif rn == "yielded":
+                                fail = "var fb = Fiber.new(|| { import \"em\" as m; return 0; }); saved = fb.call(); fb.call();"
+                                retry = "var fb2 = Fiber.new(|| { import \"em\" as m2; print(m2.tag); return 0; }); fb2.call(); fb2.call();"
+                            else:
+                                # where the failing import / the retry stands rotates (every place meets every route, way and kind)
+                                fp, rp = ESC_PLACES[i % len(ESC_PLACES)], ESC_PLACES[(i // 3) % len(ESC_PLACES)]
+                                place = "/import_%s/retry_%s" % (fp[0], rp[0])
+                                fail = fp[1] % ("import \"%s\" as m;" % imp)
+                                retry = rp[1] % ("import \"%s\" as m2; print(\"retried\");" % imp)
+                            probe = puse % acc
+                            setm = "st.mode = %d;" % mode
+                            if order == "use_first":
+                                h = [ESC_SETUP, fail, probe, setm, retry, probe, retry, probe]
+                            else:
+                                h = [ESC_SETUP, fail, setm, retry, probe, probe]
+                            mods = {"est": ESC_STATE, "ebad": ESC_BAD, "ewrap": ESC_WRAP, "em": esc_module(kexpr, rstmt, wstmt)}
+                            res.append({"label": "%s/%s/%s/%s/retry_%s/%s%s" % (rn, via, wn, kn, mn, order, place), "h": h, "mods": mods,
+                                        "probe": probe, "fail": 1})
+    return res
+
+
+ESC_STATS = {}
+
+
+def escape_check(ctx, binary, profile, mods_items, only=None):
+    """the k-th use of an object that escaped from a module body that then failed prints the values of the attempt that made it"""
+    quick = ctx.quick() if hasattr(ctx, "quick") else True
+    cases = [dict(only, label="replay")] if only is not None else esc_cases(quick, ctx.rng.randrange(1000) if hasattr(ctx, "rng") else 0, profile)
+    recs = harness(binary, [scale_items(binary, c["h"], mods_items, c["mods"]) for c in cases])
+    n = judged = 0
+    retry_outcomes = {}
+    for c, rec in zip(cases, recs):
+        n += 1
+        a = impl_records(rec)
+        if len(a) <= c["fail"] or not (a[c["fail"]]["res"] or "").startswith("err"):
+            note = "escape family: the import in %r did not fail on this tree" % c["label"]
+            if only is None and note not in ctx.notes:
+                ctx.notes.append(note)
+            continue
+        judged += 1
+        k = 0
+        want, got = [], []
+        for j, src in enumerate(c["h"]):
+            if src != c["probe"]:
+                if j > c["fail"] and j < len(a) and "import" in src:
+                    key = (a[j]["res"] or "none").split(":")[0]
+                    retry_outcomes[key] = retry_outcomes.get(key, 0) + 1
+                continue
+            k += 1
+            want.append("out=%s;res=ok" % hx("hello from em #1/%d" % (100 + k)))
+            got.append(";".join(fmt_obs(a[j]).split(";")[:2]) if j < len(a) else "missing")
+        if got != want:
+            ctx.violation("an object that escaped from a module body which then failed uncaught (%s) no longer sees the definitions that "
+                          "attempt completed: a later snippet (the retry of the import) disturbed them [%s build]" % (c["label"], profile),
+                          input=c["h"], raw_escape={"h": c["h"], "mods": c["mods"], "probe": c["probe"], "fail": c["fail"]},
+                          modules=c["mods"], profile=profile, expected=[readable(x) for x in want], actual=[readable(x) for x in got],
+                          all_snippets=[readable(fmt_obs(r)) for r in a])
+    ESC_STATS[profile] = {"histories": n, "judged": judged, "retry_outcomes": retry_outcomes}
+    return n
+
+
+
 DIRTY_STATS = {}
 SCALE_STATS = {}
 
@@ -1303,6 +1426,8 @@ def directed_families(ctx, bins, mods_items):
     """the cheap directed oracles on the implementation alone (both builds); returns the number of harness histories"""
     n = nf = 0
     for profile, binary in bins.items():
+        n += escape_check(ctx, binary, profile, mods_items)
+        phase("  escape (%s)" % profile)
         a, b = sidefx_check(ctx, binary, profile, mods_items)
         n += 2 * a
         nf += b
@@ -1407,7 +1532,7 @@ def run(ctx):
         ctx.cov.update({"evaluations": 2, "distinct_nontrivial": 1, "rule": "replay of one raw side-effect history", "samples": [ctx.replay_only["raw"]]})
         return
     for key, fn in (("raw_reset", reset_check), ("raw_modules", module_check), ("raw_dirty", dirty_ok_check), ("raw_split", split_check),
-                    ("raw_scale", scale_check)):
+                    ("raw_scale", scale_check), ("raw_escape", escape_check)):
         if ctx.replay_only and key in ctx.replay_only:
             mods_items = " ".join("%s=%s" % (hx(n), hx(s)) for n, s in zip(["good", "bad", "syn", "nest"], MOD_SRC))
             load_msg_table()
@@ -1558,6 +1683,8 @@ def run(ctx):
         "ok_runs_leaving_state": dict(DIRTY_STATS), "ok_runs_leaving_state_kinds": [c[0] for c in DIRTY_FLAG_CORES] + [c[0] for c in DIRTY_OTHER],
         "ok_runs_leaving_state_probes": [c[0] for c in RESIDUE_PROBES + DIRTY_PROBES], "split_cases": [c[0] for c in SPLIT_CASES],
         "scale_families": {k: {"kinds": v[1], "places": v[2], "sizes": v[3]} for k, v in SCALE_FAMILIES.items()}, "scale_runs": dict(SCALE_STATS),
+        "escape_family": {"routes": [r[0] for r in ESC_ROUTES], "kinds": [k[0] for k in ESC_KINDS], "ways": [w[0] for w in ESC_WAYS],
+                          "retries": [m[1] for m in ESC_MODES], "runs": dict(ESC_STATS)},
         "distinct_nontrivial": len(nontriv),
         "rule": "histories of <= 9 snippets of the mini-language ReplLang.v (definitions, uses, compile errors, uncaught errors from 18 places, "
                 "try/finally and fibers that complete, imports of a good/throwing/missing/uncompilable/nested module, RESET): every "
